@@ -383,15 +383,34 @@ func runC20(r *core.Run) {
 		r.NTCount(k)
 	})
 	// a few structured matrices: identity, permutations, diagonal, the library's own sRGB matrix
-	for _, m := range []matrix.Matrix3{
+	structured := []matrix.Matrix3{
 		{{1, 0, 0}, {0, 1, 0}, {0, 0, 1}}, {{0, 1, 0}, {0, 0, 1}, {1, 0, 0}}, {{2, 0, 0}, {0, -3, 0}, {0, 0, 0.5}},
 		{{1, 2, 3}, {0, 1, 4}, {5, 6, 0}}, {{0, 0, 1}, {0, 1, 0}, {1, 0, 0}},
-	} {
+	}
+	// rotations about each axis, 1+2 block matrices, symmetric and skew-symmetric-plus-identity
+	// matrices, triangular matrices (structure a generic random matrix never has)
+	rgs := core.NewRNG(r.Seed, "C20", "structured")
+	for k := 0; k < 60; k++ {
+		c, s := math.Cos(float64(k)*0.37+0.2), math.Sin(float64(k)*0.37+0.2)
+		a, b, d, e := rgs.Uniform(-3, 3), rgs.Uniform(-3, 3), rgs.Uniform(-3, 3), rgs.Uniform(0.5, 3)
+		structured = append(structured,
+			matrix.Matrix3{{1, 0, 0}, {0, c, s}, {0, -s, c}}, matrix.Matrix3{{c, 0, -s}, {0, 1, 0}, {s, 0, c}}, matrix.Matrix3{{c, s, 0}, {-s, c, 0}, {0, 0, 1}},
+			matrix.Matrix3{{e, 0, 0}, {0, a, b}, {0, d, e + 1}}, matrix.Matrix3{{a, b, 0}, {d, e + 4, 0}, {0, 0, e}},
+			matrix.Matrix3{{e + 3, a, b}, {a, e + 4, d}, {b, d, e + 5}}, matrix.Matrix3{{1, a, b}, {-a, 1, d}, {-b, -d, 1}},
+			matrix.Matrix3{{e, 0, 0}, {a, e + 1, 0}, {b, d, e + 2}}, matrix.Matrix3{{e, a, b}, {0, e + 1, d}, {0, 0, e + 2}})
+	}
+	for _, m := range structured {
 		if kind, msg := c20Algebra(m, matrix.Matrix3{{1, 2, 3}, {4, 5, 6}, {7, 8, 10}}, matrix.Vector3{1, -2, 3}); kind != "" {
 			mm := m
-			r.Violate("algebra", kind, msg, c20Case{Kind: kind, M: &mm})
+			r.Violate("algebra", kind+"/structured", msg, c20Case{Kind: kind, M: &mm})
 		}
-		r.AddEvals(6)
+		// and as the right-hand operand
+		if kind, msg := c20Algebra(matrix.Matrix3{{1, 2, 3}, {4, 5, 6}, {7, 8, 10}}, m, matrix.Vector3{1, -2, 3}); kind != "" {
+			mm, oo := matrix.Matrix3{{1, 2, 3}, {4, 5, 6}, {7, 8, 10}}, m
+			r.Violate("algebra", kind+"/structured", msg, c20Case{Kind: kind, M: &mm, O: &oo})
+		}
+		r.AddEvals(12)
+		r.NT(fmt.Sprintf("structured/%v", m))
 	}
 	tm := ciexyz.TransformToXYZForXYYPrimaries(c20xyy(c20Published[5].XY[0]), c20xyy(c20Published[5].XY[1]), c20xyy(c20Published[5].XY[2]), c20xyy(c20Published[5].XY[3]))
 	r.Sample(map[string]any{"space": "Rec.2020", "rgb_to_xyz_rows": libMat(tm)})
